@@ -151,3 +151,36 @@ extern "C" void h_rbit_rt(void) {
   verif_assert(db.Decode(&t2) && t2 == tail && db.remaining_size() == 0, "exact consumption");
   verif_reach();
 }
+
+// ---- two bit regions on the SAME EncoderBuffer (all four size-flag combinations, optional Clear() in between):
+// interleavings of bit-mode and byte-mode writes must stay independent of the buffer's history
+extern "C" void h_bits_two_seq(void) {
+  EncoderBuffer eb;
+  const bool s1 = nondet_bool(), s2 = nondet_bool(), clear_between = nondet_bool();
+  const uint32_t a = nondet_u32(), b = nondet_u32();
+  const uint64_t head = nondet_u64();
+  eb.Encode(head);
+  verif_assert(eb.StartBitEncoding(W1, s1) && eb.EncodeLeastSignificantBits32(W1, a), "first region");
+  eb.EndBitEncoding();
+  size_t base = eb.size();
+  if (clear_between) { eb.Clear(); eb.Encode(head); base = 8; }
+  const uint8_t mid = nondet_u8();
+  eb.Encode(mid);
+  verif_assert(eb.StartBitEncoding(W2, s2) && eb.EncodeLeastSignificantBits32(W2, b), "second region");
+  eb.EndBitEncoding();
+  const uint8_t tail = nondet_u8();
+  eb.Encode(tail);
+  verif_assert(eb.size() == base + 1 + (s2 ? 1 : 0) + (W2 + 7) / 8 + 1, "second region occupies [size byte +] ceil(bits/8) bytes regardless of the first one");
+  DecoderBuffer db; db.Init(eb.data(), eb.size(), DRACO_BITSTREAM_VERSION(2, 2));
+  uint64_t h2 = 0, sz = 0; uint32_t r = 0; uint8_t m2 = 0, t2 = 0;
+  verif_assert(db.Decode(&h2) && h2 == head, "header");
+  if (!clear_between) {
+    verif_assert(db.StartBitDecoding(s1, &sz) && db.DecodeLeastSignificantBits32(W1, &r) && r == maskw(a, W1), "first region round trip");
+    db.EndBitDecoding();
+  }
+  verif_assert(db.Decode(&m2) && m2 == mid, "byte between the regions");
+  verif_assert(db.StartBitDecoding(s2, &sz) && db.DecodeLeastSignificantBits32(W2, &r) && r == maskw(b, W2), "second region round trip");
+  db.EndBitDecoding();
+  verif_assert(db.Decode(&t2) && t2 == tail && db.remaining_size() == 0, "trailing byte found, exact consumption");
+  verif_reach();
+}
